@@ -1247,3 +1247,117 @@ Proof.
     rewrite Ft7. rewrite ?G3, ?G4, ?G5, ?G6. rewrite Ft6. rewrite ?F3, ?F4, ?F5, ?F6, ?F9, ?F10.
     rewrite ?D2, ?D4, ?D5, ?D6, ?D7, ?D10, ?D11. exact HK.
 Qed.
+
+(* ------------------------------------------------------------------------------------------ *)
+(* preservation: tcp_dispatch                                                                   *)
+(* ------------------------------------------------------------------------------------------ *)
+Lemma set_closed_inv : forall s, tcp_live_inv s -> tcp_live_inv (tcp_set_state s Closed).
+Proof. exact abort_inv. Qed.
+
+Lemma dispatch_timers_inv : forall cx s s1 tg,
+  tcp_live_inv s -> tcp_dispatch_timers cx s = Ok (s1, tg) -> tcp_live_inv s1.
+Proof.
+  intros cx s s1 tg I H.
+  pose proof (inv_core_eq _ _ (dt_pre_core cx s) I) as Iq.
+  destruct (dt_spec _ _ _ _ H) as [(_ & ->) | [(_ & _ & ->) | (_ & Hsr & E1 & E2 & E3 & E4 & E5 & E6 & _ & _ & Hcc & Hrt & Hnx & _ & HK)]].
+  - apply set_closed_inv. exact Iq.
+  - exact Iq.
+  - revert Iq E1 E2 E3 E4 E5 E6 Hcc Hrt Hnx HK Hsr. generalize (dt_pre cx s). intros q Iq.
+    intros E1 E2 E3 E4 E5 E6 Hcc Hrt Hnx HK Hsr. inv_destruct Iq.
+    assert (Hnc : timer_is_close (s_timer q) = false).
+    { destruct (s_timer q); try reflexivity. cbn in Hsr. discriminate. }
+    specialize (HK Hnc).
+    constructor; unfold live_K; rewrite ?E1, ?E2, ?E3, ?E4, ?E5, ?E6; auto.
+    + intros Hc. destruct HK as [Ha | (Hi & _)].
+      * rewrite (armed_not_close _ Ha) in Hc. discriminate.
+      * destruct (s_timer s1); discriminate.
+    + destruct Hnx as [-> | ->]; assumption.
+    + intros _. destruct HK as [Ha | (_ & Hfl & Hw)]; [left; exact Ha|].
+      right. rewrite E3, E4, E5 in *. auto.
+Qed.
+
+Lemma dispatch_decide_inv : forall cx s s2 go tg,
+  tcp_live_inv s -> tcp_dispatch_decide cx s = Ok (s2, go, tg) -> tcp_live_inv s2.
+Proof.
+  intros cx s s2 go tg I H.
+  destruct (decide_spec _ _ _ _ _ H) as [(_ & ->) | [(_ & ->) | (_ & -> & _)]]; try exact I.
+  inv_destruct I. constructor; unfold live_K; sproj; cbn [st_conn st_nodata st_live];
+    try discriminate; auto.
+Qed.
+
+(* what the builder decides besides the segment: the socket changes at most in
+   pending_fast_retransmit; a zero-window probe is only announced when the probe timer is due,
+   a keep-alive only when the idle timer is due *)
+Lemma build_data_core : forall cx s repr s3 o z tg,
+  tcp_dispatch_build_data cx s repr = Ok (s3, o, z, tg) ->
+  core_eq s s3 /\ (z = true -> timer_should_zero_window_probe (s_timer s) (cx_now cx) = true).
+Proof.
+  intros cx s repr s3 o z tg H. unfold tcp_dispatch_build_data in H.
+  obind_inv H. obind_inv H. obind_inv H. destruct a1 as ((((q, r1), off), zw), tq).
+  inversion H; subst s3 o z tg; clear H.
+  destruct (s_pending_fast_retransmit s && (s_remote_win_len s >? 0)).
+  - inversion E1; subst. split; [core_triv | discriminate].
+  - obind_inv E1. obind_inv E1. obind_inv E1. inversion E1; subst. split; [apply core_eq_refl|].
+    intros Hz. apply andb_true_iff in Hz. apply Hz.
+Qed.
+
+Lemma build_core : forall cx s t s3 o z k tg,
+  tcp_dispatch_build cx s t = Ok (s3, o, z, k, tg) ->
+  core_eq s s3 /\
+  (z = true -> timer_should_zero_window_probe (s_timer s3) (cx_now cx) = true) /\
+  (k = true -> timer_should_keep_alive (s_timer s3) (cx_now cx) = true).
+Proof.
+  intros cx s t s3 o z k tg H. unfold tcp_dispatch_build in H.
+  obind_inv H. destruct a as (((sb, ob), zb), tb).
+  assert (Hb : core_eq s sb /\ (zb = true -> timer_should_zero_window_probe (s_timer s) (cx_now cx) = true)).
+  { destruct (s_state s); try (inversion E; subst; split; [apply core_eq_refl | discriminate]);
+      try (eapply build_data_core; exact E).
+    destruct (s_syn_unacked_in_fin_wait s);
+      [inversion E; subst; split; [apply core_eq_refl | discriminate] | eapply build_data_core; exact E]. }
+  destruct Hb as (Cb & Hz). clear E.
+  assert (Et : s_timer sb = s_timer s) by apply Cb.
+  destruct ob as [repr|].
+  - obind_inv H. inversion H; subst s3 o z k tg; clear H. rewrite Et.
+    split; [exact Cb|]. split; [exact Hz|]. intros Hk. apply andb_true_iff in Hk. apply Hk.
+  - inversion H; subst. split; [exact Cb|]. split; discriminate.
+Qed.
+
+Lemma dispatch_finish_inv : forall cx s repr z k,
+  tcp_live_inv s ->
+  (z = true -> timer_should_zero_window_probe (s_timer s) (cx_now cx) = true) ->
+  tcp_live_inv (fst (tcp_dispatch_finish cx s repr z k)).
+Proof.
+  intros cx s repr z k I Hz. inv_destruct I. unfold tcp_dispatch_finish.
+  set (t1 := timer_rewind_keep_alive (s_timer s) (cx_now cx) (s_keep_alive s)).
+  assert (Hc1 : timer_is_close t1 = timer_is_close (s_timer s)) by apply rewind_keep_alive_close.
+  assert (Ha1 : timer_armed t1 = timer_armed (s_timer s)) by apply rewind_keep_alive_armed.
+  destruct z.
+  { (* zero-window probe: only the probe timer is rewound *)
+    cbn [fst]. constructor; unfold live_K in *; sproj; auto;
+      rewrite ?rewind_zwp_close, ?rewind_zwp_armed, ?Hc1, ?Ha1; auto. }
+  destruct k.
+  { cbn [fst]. constructor; unfold live_K in *; sproj; auto; rewrite ?Hc1, ?Ha1; auto. }
+  sproj.
+  destruct (repr_segment_len repr >? 0) eqn:Hlen; cbn [andb]; sproj.
+  - (* a segment that occupies sequence space: the retransmission timer runs afterwards *)
+    destruct (negb (timer_is_retransmit t1)) eqn:Hre; sproj;
+      destruct (tcp_state_eqb (s_state s) Closed) eqn:Hcl; cbn [fst];
+      constructor; unfold live_K in *; sproj; auto;
+      try (apply tcp_state_eqb_true in Hcl; rewrite Hcl; cbn; discriminate);
+      try (apply seq_max_u32; [assumption | apply seq_add_u32]);
+      try (unfold rtte_ok in *; rewrite rtte_on_send_rto; assumption).
+    all: try (intros Hc; apply Ic;
+              destruct (timer_is_close t1) eqn:Hc'; [rewrite <- Hc1; reflexivity|];
+              rewrite (set_for_retransmit_armed _ _ _ Hc') in Hc; discriminate Hc).
+    all: try (intros Hc; apply Ic; rewrite <- Hc1; exact Hc).
+    all: try (intros Hl; left;
+              assert (Hnc : timer_is_close t1 = false)
+                by (rewrite Hc1; destruct (timer_is_close (s_timer s)) eqn:X; [|reflexivity];
+                    destruct (Ic eq_refl) as [Y|Y]; rewrite Y in Hl; discriminate);
+              first [rewrite (set_for_retransmit_armed _ _ _ Hnc); reflexivity
+                    | apply negb_false_iff in Hre; destruct t1; try discriminate; reflexivity]).
+  - (* nothing that needs an acknowledgement was sent: the sender state is unchanged *)
+    destruct (tcp_state_eqb (s_state s) Closed) eqn:Hcl; cbn [fst];
+      constructor; unfold live_K in *; sproj; auto; rewrite ?Hc1, ?Ha1; auto;
+      try (apply tcp_state_eqb_true in Hcl; rewrite Hcl; cbn; discriminate).
+Qed.
